@@ -251,7 +251,8 @@ func parseApp(s string) (App, bool) {
 	}
 	if n == 3 {
 		// fault 6 (phase 2 fails) needs a listener: a server without one manages no certificate
-		if f != 0 && f != 2 && !(f == 6 && len(l) > 0) {
+		// fault 7: the listen_protocols entry of the first listener enables h2c without h1
+		if f != 0 && f != 2 && !((f == 6 || f == 7) && len(l) > 0) {
 			return App{}, false
 		}
 	} else if f > 5 || f == 1 {
